@@ -24,7 +24,7 @@ RULE = ('case = (persistent worker kind, 1-3 consecutive restarts, state before 
 ASSUMPTIONS = ['restart(timeout=0.5) is used because the default None legitimately waits for an endless item', 'guard 40 s']
 SHRINK = 'none'
 TIME_BUDGET = {'quick': 170, 'thorough': 1700}
-STATES = ['fresh', 'unread', 'queued', 'closed', 'error', 'killed', 'stuck']
+STATES = ['fresh', 'unread', 'queued', 'closed', 'error', 'killed', 'stuck', 'unreadable_then_stuck']
 REQUIRED = {'quick': {'state:' + s_: 15 for s_ in STATES}, 'thorough': {'state:' + s_: 60 for s_ in STATES}}
 REQUIRED['quick']['pipe:supplied'] = 100
 REQUIRED['quick']['falsy_userid'] = 100
@@ -47,6 +47,7 @@ def strategy(tier):
         'states': st.lists(st.sampled_from(STATES), min_size=1, max_size=3),
         'pipe': st.sampled_from(['own', 'supplied']),
         'userid': st.sampled_from([0, 4711, 4711, '', None]),
+        'enumerate': st.booleans(),
     })
     # the way the Pool restarts: restart_workers() over 1-3 workers of which one may be a thread worker that cannot be stopped
     pool = st.fixed_dictionaries({'pool_restart': st.just(True), 'workers': st.lists(st.sampled_from(['thread', 'process', 'stuck_thread', 'thread']), min_size=1, max_size=3),
@@ -293,9 +294,18 @@ def run_case(case, ctx):
                 elif state == 'stuck':
                     w.enqueue('SWALLOW')
                     time.sleep(0.3)
+                elif state == 'unreadable_then_stuck':
+                    # the parent cannot rebuild one result (and gives up reading), the child is busy with the next input for good
+                    w.enqueue('UNREADABLE'); w.enqueue('SWALLOW')
+                    time.sleep(0.4)
             except BaseException as e:
                 out.excluded = f'could not reach state {state}: {type(e).__name__}'
                 return out
+            if case.get('enumerate'):
+                # somebody enumerates the registry while the worker is in that state (a dead worker is forgotten by that)
+                from pyworkers.worker import Worker
+                list(Worker.active_children())
+                out.label('registry_enumerated_before_restart')
             # ---- restart
             rkw = {'timeout': 0.5}
             if case['pipe'] == 'supplied':
@@ -314,7 +324,7 @@ def run_case(case, ctx):
             if rr == 'blocked':
                 out.viol('restart_blocked', site, 'restart(timeout=0.5) did not return within 40 s')
                 break
-            if state == 'stuck' and thread:
+            if state in ('stuck', 'unreadable_then_stuck') and thread:
                 if rr != 'RuntimeError':
                     out.viol('stuck_thread_restart_did_not_raise', site, f'restart of a thread worker stuck in an uncooperative target: {rr}')
                 else:
@@ -326,6 +336,10 @@ def run_case(case, ctx):
                 # release the stuck thread and stop here
                 open(escape, 'w').close()
                 break
+            if rr == 'ok' and case.get('enumerate'):
+                from pyworkers.worker import Worker
+                if not any(c is w for c in Worker.active_children()):
+                    out.viol('restarted_worker_not_among_active_children', site, 'restart() returned a live worker that Worker.active_children() does not list')
             if rr != 'ok':
                 out.viol('restart_' + rr.split(':')[0] + (':' + rr.split(':')[1] if rr.startswith('raised') else ''), site, rr)
                 break
